@@ -40,7 +40,7 @@ def generate(rnd, tier, index=0):
                         c["np"][1].pop("radius")
     any_ts = any(c["lp"][0] == "ThompsonSampling" for c in cfgs)
     any_ctx = any(is_contextual(c) for c in cfgs)
-    n = rnd.randint(12, 48)
+    n = rnd.choice([rnd.randint(12, 48), 5 * rnd.randint(3, 10), 10 * rnd.randint(2, 6)])
     rk = "binary" if any_ts else ("nonneg" if regime == "exact" else "nonneg_real")
     omit = gen.some_omitted(rnd, arms) if rnd.random() < 0.3 else None
     rows = gen.gen_rows(rnd, arms, n, d, regime, rk, any_ctx, omit=omit)
@@ -48,7 +48,8 @@ def generate(rnd, tier, index=0):
         a = sorted(omit, key=str)[0]
         rows[-1][0] = a
         rows[-2][0] = a
-    test_size = rnd.choice([0.2, 0.25, 0.3, 0.4, 0.5])
+    # includes fractions for which n*(1-test_size) and n - n*test_size round differently in binary floating point
+    test_size = rnd.choice([0.1, 0.2, 0.25, 0.3, 0.4, 0.5, 0.6, 0.7, 0.75, 0.8, 0.9])
     n_test = math.ceil(n * test_size)
     online = rnd.random() < 0.5
     batch = rnd.randint(1, n_test) if online else 0
@@ -233,3 +234,15 @@ def exc_sig(run, case, sig):
     if "continuous is not supported" in str(run.exc) and any(isinstance(a, float) and a != int(a) for a in arms):
         out["kf_float"] = "float-arms-confusion-matrix"
     return out
+
+
+def api_raises_too(run, case):
+    """Simulator.run() raised: does driving one of its bandits through the public API raise as well (e.g. a metric that is
+    undefined for this data, a training set smaller than k or than the number of clusters)? Then there are no reported
+    results on either side and neither C15 nor C16 makes a claim."""
+    for i in range(len(case["cfgs"])):
+        try:
+            api_reference(run, case, i, True, False)
+        except Exception as e:   # noqa
+            return type(e).__name__
+    return None
